@@ -259,7 +259,7 @@ def run_parent(args):
         lines.append('INCONCLUSIVE property=%s reason=%s' % (prop, r.replace('\n', ' | ')[:1200]))
     wall = time.time() - t0
 
-    if not args.replay:
+    if not args.replay and not os.environ.get('VERIF_NO_EVIDENCE'):
         level = getattr(mod, 'LEVEL', 'exploration')
         coverage = {
             'evaluations': evaluations,
